@@ -443,7 +443,8 @@ def evaluate(expr, ctx: Ctx, tol: Tol, comp=()) -> EV:
             xs = np.asarray(ctx.x[r])[:, i]
             v = T @ xs
             mag = np.abs(T) @ np.abs(xs)
-            e = it.u * mag * (T.shape[1] + 1.0)
+            # the coordinate element's tables are clamped / merged with the table tolerances like any other table
+            e = it.u * mag * (T.shape[1] + 1.0) + (tol.rtol * np.abs(T) + tol.atol) @ np.abs(xs)
             return EV(pts(v), pts(e), pts(mag))
         if isinstance(t, QuadratureWeight):
             return it.data(pts(ctx.weights))
